@@ -128,7 +128,9 @@ def flatten(ctx):
                            "`%s` consumes the recursive derives of a PATH inside the loop over registry entries: several entries can carry that path "
                            "(Foo<Bar>, Foo<Baz>), so only the first same-path root is flattened and the children of the others get nothing" % cshort(n.get("callee", n["name"])))
     loops = [(n, as_for_loop(n)) for n in walk(fn["body"], into_closures=False) if as_for_loop(n) is not None]
-    entry = [(n, fl) for n, fl in loops if show(N.term(fl[1])) == REG]
+    # role: the loop over the registry entries that runs the reachability traversal (a call receiving the `&mut HashSet<u32>`)
+    entry = [(n, fl) for n, fl in loops if show(N.term(fl[1])) == REG
+             and any(x.get("k") in ("Call", "MethodCall") and any("HashSet<u32" in (a.get("adj") or a.get("ty", "")) for a in x.get("args", [])) for x in walk(fl[2]))]
     if len(entry) != 1:
         ctx.bad("C08.4", "missing-anchor/entry-loop", fn["sp"], "expected one loop over registry entries, found %d" % len(entry))
         return
@@ -168,7 +170,19 @@ def flatten(ctx):
             init = pt[2] if pt[0] == "mut" else pt
             exp_p = ("Iterator::collect(Iterator::map(Iterator::filter(%s,|1|{Not(Path::is_empty(C1_0.ty.path))}),|1|{match(utils::syn_type_path(C1_0.ty)){"
                      "v1::Ok($)=>Ok((C1_0.id,utils::syn_type_path(C1_0.ty)@v1::Ok.0));v1::Err($)=>Err(utils::syn_type_path(C1_0.ty)@v1::Err.0)}}))?") % REG
-            expect_term(ctx, "C08.4", "flatten/id-path-table", fn["sp"], init, exp_p, "id -> path for every entry that has a path")
+            if show(init) in ("HashMap::new()", "Default::default()"):
+                # the same table filled by a loop: one insert of (entry id, path of THIS entry), for every entry with a non-empty path
+                E_ = "elem(%s)" % REG
+                ins = [e for e in q.effects(N, syms) if e["lid"] == lid and e["kind"] == "mutcall" and cshort(e["node"].get("callee", "")) == "HashMap::insert"]
+                ok = len(ins) == 1
+                detail = "%d inserts into the id -> path table" % len(ins)
+                if ok:
+                    args = [show(N.term(a, syms)) for a in ins[0]["node"]["args"]]
+                    ok = args == ["%s.id" % E_, "utils::syn_type_path(%s.ty)?" % E_] and ins[0]["guards"] in (["for(%s)" % REG, "!Path::is_empty(%s.ty.path)" % E_],)
+                    detail = "insert(%s) under %s" % (", ".join(args), ins[0]["guards"])
+                ctx.expect(ok, "C08.4", "flatten/id-path-table", fn["sp"], "id -> path for every entry that has a path", detail)
+            else:
+                expect_term(ctx, "C08.4", "flatten/id-path-table", fn["sp"], init, exp_p, "id -> path for every entry that has a path")
     # result
     lits = list(q.struct_lits(fn["body"], "derives::FlatDerivesRegistry"))
     ok = len(lits) == 2 and all(set(f["name"] for f in l["fields"]) == {"default_derives", "specific_type_derives"} for l in lits)
